@@ -1,11 +1,12 @@
 #!/bin/bash
-# usage: tools/demo.sh <patch.diff> <property id> [tier]   — apply a mutation to /repo, run the check, revert.
+# usage: tools/demo.sh <patch.diff> <property id> [tier]
+# Applies a mutation to /repo, runs the check, and reverts exactly that mutation (git apply -R).
 set -u
 patch=$(realpath "$1"); id=$2; tier=${3:-quick}
 cd /repo || exit 2
-if [ -n "$(git status --porcelain --untracked-files=no)" ]; then echo "/repo is dirty, refusing"; exit 2; fi
-git apply "$patch" || { echo "patch does not apply"; exit 2; }
+git apply --check "$patch" || { echo "patch does not apply"; exit 2; }
+git apply "$patch" || exit 2
 cd /verif && ./check "$id" --tier "$tier"; code=$?
-git -C /repo checkout -- . 
+git -C /repo apply -R "$patch" || echo "WARNING: could not revert $patch"
 echo "demo $(basename "$patch") on $id: exit $code"
 exit $code
